@@ -2284,7 +2284,7 @@ func (n UnaryExpr) JSON(w io.Writer) error {
 		w.Write([]byte("-"))
 		w.Write(lit.Data)
 		return nil
-	} else if n.Op == NotToken && lit.TokenType == IntegerToken && (lit.Data[0] == '0' || lit.Data[0] == '1') {
+	} else if ok && n.Op == NotToken && lit.TokenType == IntegerToken && (lit.Data[0] == '0' || lit.Data[0] == '1') {
 		if lit.Data[0] == '0' {
 			w.Write([]byte("true"))
 		} else {
